@@ -193,6 +193,8 @@ func (sn *simNet) tamper(i int, class string) (int, error) {
 	switch class {
 	case "iv":
 		lo, hi = 0, 16
+	case "ver": // high byte of the version field (the low byte would make the version 0 = below minimum)
+		lo, hi = 22, 23
 	case "nonce":
 		lo, hi = 25, 37
 	case "src": // source id: first 32 bytes of the authdata of message and handshake packets
@@ -216,23 +218,26 @@ func (sn *simNet) tamper(i int, class string) (int, error) {
 
 // deliver hands packet i to node `to` as coming from the address of its original sender and
 // classifies what Decode reports.
-func (sn *simNet) deliver(i int, to string) (string, string) {
+func (sn *simNet) deliver(i int, to, from string) (string, string) {
 	p := sn.wire[i-1]
 	n := sn.nodes[to]
 	src := sn.nodes[p.src]
-	id, node, pkt, err := n.c.Decode(p.data, src.addr)
+	id, node, pkt, err := n.c.Decode(p.data, sn.nodes[from].addr)
 	if err != nil {
 		return "err", err.Error()
 	}
 	switch q := pkt.(type) {
 	case *v5wire.Unknown:
-		if id == src.ln.ID() {
+		// the caller would challenge (id, address): it is the peer only if both are the sender's
+		if id == src.ln.ID() && from == p.src {
 			nn := q.Nonce
 			n.unk[p.src] = &nn
 		}
 		return "unknown", ""
 	case *v5wire.Whoareyou:
-		n.got[p.src] = q
+		if from == p.src {
+			n.got[p.src] = q
+		}
 		return "way", ""
 	}
 	// an authenticated message: must be the one that was sent, from the node that sent it
@@ -332,7 +337,7 @@ func runSessions(path string, sum *tl.Summary) {
 					tl.Fatal("%v", err)
 				}
 			case "deliver":
-				got, detail := sn.deliver(a.I, a.N)
+				got, detail := sn.deliver(a.I, a.N, a.P)
 				sum.Count("deliver:" + got)
 				if got != a.Out {
 					fail(fmt.Sprintf("Decode reports %q (%s), specification %q", got, detail, a.Out))
@@ -374,7 +379,7 @@ func runSessRecord(path string, seed int64, ntraces, steps int, sum *tl.Summary)
 	defer tr.Close()
 	nodes := []string{"A", "B", "C"}
 	kinds := []string{"ping", "pong", "findnode", "nodes", "talkreq", "talkresp"}
-	classes := map[string][]string{"msg": {"iv", "nonce", "src", "ct"}, "way": {"iv", "nonce", "idn"}, "hs": {"iv", "nonce", "src", "sig", "ct"}}
+	classes := map[string][]string{"msg": {"iv", "ver", "nonce", "src", "ct"}, "way": {"iv", "ver", "nonce", "idn"}, "hs": {"iv", "ver", "nonce", "src", "sig", "ct"}}
 	shapes := map[string]bool{}
 	for t := 0; t < ntraces; t++ {
 		knows := map[string]map[string]bool{}
@@ -401,11 +406,15 @@ func runSessRecord(path string, seed int64, ntraces, steps int, sum *tl.Summary)
 				if r.Intn(6) == 0 {
 					to = nodes[r.Intn(len(nodes))] // redirected
 				}
-				out, detail := sn.deliver(i, to)
+				from := sn.wire[i-1].src
+				if r.Intn(10) == 0 {
+					from = nodes[r.Intn(len(nodes))] // spoofed source address
+				}
+				out, detail := sn.deliver(i, to, from)
 				if detail != "" && (out == "msg" || out == "hsmsg") {
 					out += ":corrupt" // an accepted message that is not the one sent: never allowed by the specification
 				}
-				emit("deliver", to, sn.wire[i-1].src, "", i, "", out)
+				emit("deliver", to, from, "", i, "", out)
 				shape += "d" + out
 				continue
 			}
@@ -457,7 +466,7 @@ func runSessRecord(path string, seed int64, ntraces, steps int, sum *tl.Summary)
 				// replay an old packet
 				i := 1 + r.Intn(len(sn.wire))
 				to := sn.wire[i-1].dst
-				out, detail := sn.deliver(i, to)
+				out, detail := sn.deliver(i, to, sn.wire[i-1].src)
 				if detail != "" && (out == "msg" || out == "hsmsg") {
 					out += ":corrupt"
 				}
